@@ -451,3 +451,109 @@ Proof.
     apply orb_false_elim in Ef. destruct Ef as [Ef _]. rewrite Ef, HhW. cbn [orb].
     rewrite <- E. apply rel_path_normal_idem.
 Qed.
+
+(* ================================================================ 2b. auth_normal *)
+(* normalization writes no delimiter: a character that is not unreserved and not '%' appears in the result
+   only where it stood in the text *)
+Lemma norm_char_unres (lc : bool) (v k : N) : is_unreserved k = false -> is_unreserved v = true ->
+  (if lc then lower v else v) <> k.
+Proof. destruct lc; arith. Qed.
+
+Lemma norm_char_hex (v k : N) : is_unreserved k = false -> v < 16 -> upper_hex v <> k.
+Proof. arith. Qed.
+
+Lemma norm_char_other (lc : bool) (c k : N) : is_unreserved k = false -> c <> k -> (if lc then lower c else c) <> k.
+Proof. destruct lc; arith. Qed.
+
+Lemma pct_norm_notin lc k t : is_unreserved k = false -> k <> 37 -> pct_wf t = true ->
+  ~ In k t -> ~ In k (pct_norm lc t).
+Proof.
+  intros Hk Hk37 Hwf. wf_induction t Hwf; intros Hn.
+  - exact Hn.
+  - rewrite pct_norm_other by exact Hc. intros [E|Hi].
+    + apply (norm_char_other lc c k Hk); [|exact E]. intros Eck. apply Hn. left. exact Eck.
+    + apply IH; [|exact Hi]. intros H. apply Hn. right. exact H.
+  - assert (~ In k r) as Hnr by (intros H; apply Hn; right; right; right; exact H).
+    rewrite pct_norm_triplet by assumption. cbv zeta.
+    destruct (is_unreserved (16 * hexdig_to_int a + hexdig_to_int b)) eqn:Eu.
+    + intros [E|Hi]; [exact (norm_char_unres lc _ k Hk Eu E)|exact (IH Hnr Hi)].
+    + intros [E|[E|[E|Hi]]]; [congruence| | |exact (IH Hnr Hi)].
+      * exact (norm_char_hex _ k Hk (hexdig_lt16 a Ha) E).
+      * exact (norm_char_hex _ k Hk (hexdig_lt16 b Hb) E).
+Qed.
+
+Lemma notin_avoidb k t : ~ In k t -> avoidb [k] t = true.
+Proof.
+  intros H. unfold avoidb. apply forallb_forall. intros c Hc. apply negb_true_iff. cbn [Regex.mem].
+  rewrite orb_false_r. apply N.eqb_neq. intros Eck. subst c. exact (H Hc).
+Qed.
+
+Lemma pct_norm_avoidb lc k t : is_unreserved k = false -> k <> 37 -> pct_wf t = true ->
+  avoidb [k] t = true -> avoidb [k] (pct_norm lc t) = true.
+Proof. intros Hk H37 Hwf H. apply notin_avoidb. apply pct_norm_notin; try assumption. apply avoidb_notin. exact H. Qed.
+
+Lemma lower_avoidb k t : is_unreserved k = false -> avoidb [k] t = true -> avoidb [k] (map lower t) = true.
+Proof.
+  intros Hk H. apply notin_avoidb. intros Hi. apply in_map_iff in Hi. destruct Hi as (c & E & Hc).
+  apply (norm_char_other true c k Hk); [|exact E]. intros Eck. subst c. exact (avoidb_notin _ _ H Hc).
+Qed.
+
+Lemma v_start_lower h : Unparse.v_start h = true -> Unparse.v_start (map lower h) = true.
+Proof.
+  unfold Unparse.v_start. destruct h as [|c r]; [discriminate|]. cbn [map head_is]. intros H.
+  apply orb_true_iff in H. destruct H as [H|H]; apply N.eqb_eq in H; subst c; reflexivity.
+Qed.
+
+(* the authority text in its parts; the hypotheses are those of Proofs/NormalizeText.v (auth_wfb: no part
+   contains a delimiter that ends it) and well-formed percent-encodings in user info and registered name:
+   every parsed authority meets them *)
+Theorem auth_normal_idem ui h (lit : bool) po :
+  opt_avoidb [64] ui = true -> avoidb [64] h = true -> opt_avoidb [64] po = true ->
+  (if lit then avoidb [93] h = true else avoidb [58] h = true /\ avoidb [91] h = true) ->
+  opt_pct_wf ui = true -> (lit = false -> pct_wf h = true) ->
+  let a := Unparse.opt_post ui [64] ++ (if lit then [91] ++ h ++ [93] else h) ++ Unparse.opt_pre [58] po in
+  auth_normal (auth_normal a) = auth_normal a.
+Proof.
+  intros Hui Hh Hpo Hl Wui Wh. cbv zeta.
+  rewrite (auth_normal_parts ui h lit po Hui Hh Hpo Hl).
+  set (ui' := match ui with Some u => Some (pct_norm false u) | None => None end).
+  set (h' := if lit then (if Unparse.v_start h then map lower h else h) else pct_norm true h).
+  assert ((match ui with Some u => pct_norm false u ++ [64] | None => [] end)
+          ++ (if lit then 91 :: (if Unparse.v_start h then map lower h else h) ++ [93] else pct_norm true h)
+          ++ (match po with Some p => 58 :: p | None => [] end)
+          = Unparse.opt_post ui' [64] ++ (if lit then [91] ++ h' ++ [93] else h') ++ Unparse.opt_pre [58] po) as E.
+  { unfold ui', h'. destruct ui, lit, po; reflexivity. }
+  rewrite E.
+  assert (opt_avoidb [64] ui' = true) as Hui'.
+  { unfold ui'. destruct ui as [u|]; [|reflexivity]. cbn [opt_avoidb opt_pct_wf] in *.
+    apply pct_norm_avoidb; [reflexivity|discriminate|exact Wui|exact Hui]. }
+  assert (avoidb [64] h' = true) as Hh'.
+  { unfold h'. destruct lit.
+    - destruct (Unparse.v_start h); [apply lower_avoidb; [reflexivity|exact Hh]|exact Hh].
+    - apply pct_norm_avoidb; [reflexivity|discriminate|exact (Wh eq_refl)|exact Hh]. }
+  assert (if lit then avoidb [93] h' = true else avoidb [58] h' = true /\ avoidb [91] h' = true) as Hl'.
+  { unfold h'. destruct lit.
+    - destruct (Unparse.v_start h); [apply lower_avoidb; [reflexivity|exact Hl]|exact Hl].
+    - destruct Hl as [H58 H91].
+      split; (apply pct_norm_avoidb; [reflexivity|discriminate|exact (Wh eq_refl)|assumption]). }
+  rewrite (auth_normal_parts ui' h' lit po Hui' Hh' Hpo Hl').
+  f_equal; [|f_equal].
+  - unfold ui'. destruct ui as [u|]; [|reflexivity]. cbn [opt_pct_wf] in Wui. rewrite (pct_norm_idem false u Wui). reflexivity.
+  - unfold h'. destruct lit.
+    + destruct (Unparse.v_start h) eqn:Ev; [|rewrite Ev; reflexivity].
+      rewrite (v_start_lower h Ev), lower_idem. reflexivity.
+    + rewrite (pct_norm_idem true h (Wh eq_refl)). reflexivity.
+Qed.
+
+(* ================================================================ 3. the text *)
+(* _partial: idempotence of [normal_text] reduced to the two facts about the five components g of the normal
+   form that remain to be proved for every parsed text: the text written for g is read back as g (the purpose
+   of Normal.guard_path), and g is a fixed point of the component-wise normalization with its guard.  (The
+   second follows from pct_norm_idem, lower_idem, auth_normal_idem, path_normal_idem and a case analysis of
+   the guard; the first needs the delimiter facts of Proofs/NormalizeText.v section 4 for g.) *)
+Theorem normal_text_idem_partial s :
+  let f := five_of_text s in
+  let g := guard_normal f (five_normal f) in
+  five_of_text (recompose g) = g -> guard_normal g (five_normal g) = g ->
+  normal_text (normal_text s) = normal_text s.
+Proof. cbv zeta. intros Hread Hfix. unfold normal_text. cbv zeta. rewrite Hread, Hfix. reflexivity. Qed.
